@@ -396,6 +396,7 @@ func runC05(res *Result, d *Driver, tier string, seed uint64) {
 		os.Remove(filepath.Join(sc.dir, "rwdir", "probe_new"))
 		os.WriteFile(filepath.Join(sc.dir, "rwfile"), []byte("content-of-rwfile"), 0666)
 	}
+	c05Propagation(res, sc)
 	c05Findings(res, sc)
 	res.Sample("raw [bind rodir->ro (ro), tmpfs w, bind rofile->ro/nested (ro,file)] : mountinfo = / tmpfs ro; /ro host ro; /w tmpfs rw; /ro/nested host ro ; touch /w/probe_new ok, touch /ro/probe_new EROFS, touch /probe_root EROFS; ls / = ro w")
 }
@@ -470,3 +471,62 @@ func syscallMount(src, tgt, fs string, flags uintptr, data string) error {
 	return syscall.Mount(src, tgt, fs, flags, data)
 }
 func syscallUnmount(tgt string) error { return syscall.Unmount(tgt, syscall.MNT_DETACH) }
+
+// c05Propagation: the host mounts something below a SHARED bind source while the sandbox exists; the mount must not
+// appear inside (both implementations make their tree private first). The harness makes its own shared tmpfs.
+func c05Propagation(res *Result, sc *c05Scratch) {
+	shared := filepath.Join(sc.dir, "shared")
+	os.MkdirAll(shared, 0755)
+	if err := syscallMount("tmpfs", shared, "tmpfs", 0, "size=1m"); err != nil {
+		res.Note("propagation case skipped: %v", err)
+		return
+	}
+	defer syscallUnmount(shared)
+	if err := syscallMount("", shared, "", syscall.MS_SHARED, ""); err != nil {
+		res.Note("propagation case skipped (make-shared): %v", err)
+		return
+	}
+	os.MkdirAll(filepath.Join(shared, "sub"), 0777)
+	os.WriteFile(filepath.Join(shared, "f"), []byte("x"), 0644)
+	sub := filepath.Join(shared, "sub")
+	for _, impl := range []string{"raw", "container"} {
+		mounted := false
+		sync := func(pid int) error {
+			// the sandbox's mount table is complete; now the host mounts below the bind source
+			if err := syscallMount("tmpfs", sub, "tmpfs", 0, "size=1m"); err == nil {
+				mounted = true
+			}
+			return nil
+		}
+		script := "touch /data/sub/x; touch /data/y; exit 0"
+		var r runner.Result
+		var out string
+		if impl == "raw" {
+			root, _ := os.MkdirTemp("", "verif-c05-root-")
+			mounts, _ := mount.NewBuilder().WithBind(shared, "data", true).Build()
+			r, out = runUnshareProbe(RunSpec{Script: script, SyncFunc: sync, WorkDir: "/"}, root, mounts)
+			os.RemoveAll(root)
+		} else {
+			b := mount.NewBuilder().WithBind(shared, "data", true).WithBind("/dev/null", "dev/null", false)
+			env, err := newEnv(container.Builder{Mounts: b.Mounts, WorkDir: "/"})
+			if err != nil {
+				res.Note("propagation case: container build failed: %v", err)
+				continue
+			}
+			r, out = env.runProbe(RunSpec{Script: script, SyncFunc: sync}, false)
+			env.Close()
+		}
+		_, statErr := os.Stat(filepath.Join(sub, "x"))
+		if mounted {
+			syscallUnmount(sub)
+		}
+		res.Case("propagation "+impl, true, "propagation")
+		if !mounted {
+			res.Note("propagation case %s: the host-side mount could not be made", impl)
+			continue
+		}
+		if r.Status != runner.StatusNormal || strings.Contains(out, "touch /data/sub/x = 0") || statErr == nil {
+			res.Mismatch(Mismatch{Kind: "oracle", What: "a mount the host makes below a shared bind source after the sandbox was built appears inside it, writable under a read-only bind (C05_namespace: private namespace)", Input: impl + " {bind <shared tmpfs> -> data (ro)}; host mounts tmpfs on <shared>/sub at the sync point", Impl: fmt.Sprintf("%v %s host file created=%v", r.Status, strings.ReplaceAll(strings.TrimSpace(out), "\n", " | "), statErr == nil), Model: "touch /data/sub/x = -30 (EROFS)", Oracle: "violates"})
+		}
+	}
+}
